@@ -24,6 +24,8 @@ REGIMES = {
     "cold": dict(tm=8.0, amp=11.0, pwet=0.3, rmean=5.0, pstorm=0.001, et=2.0),
     "hot": dict(tm=31.0, amp=6.0, pwet=0.1, rmean=8.0, pstorm=0.004, et=8.5),
     "warm": dict(tm=21.0, amp=5.0, pwet=0.25, rmean=9.0, pstorm=0.006, et=5.0),
+    # no day of the year accumulates degree days for most crops
+    "polar": dict(tm=-4.0, amp=5.0, pwet=0.3, rmean=3.0, pstorm=0.0, et=0.8),
 }
 
 
@@ -110,6 +112,11 @@ def frame(spec, lo, hi):
         out["MaxTemp"] = out["MaxTemp"] + spec["temp_add"]
     if spec.get("et_mult", 1) != 1:
         out["ReferenceET"] = np.clip(np.round(out["ReferenceET"] * spec["et_mult"], 3), 0.1, 20)
+    if spec.get("whole_degrees"):
+        # temperatures recorded to the degree (old station records): cumulative degree days hit
+        # the crop's thresholds exactly every now and then
+        out["MinTemp"] = np.round(out["MinTemp"])
+        out["MaxTemp"] = np.round(out["MaxTemp"])
     # dated episodes: {"var": col, "from": date, "days": n, "value": v | "add": a}
     for ep in spec.get("episodes", []):
         a = pd.Timestamp(_d(ep["from"]))
